@@ -177,7 +177,7 @@ func CompareResult(b *hx.Built, r xsel.Result, err error, want spec.Val, wantFai
 func genOpts() hx.GenOpts {
 	o := hx.GenOpts{MaxEvents: 3, MaxDepth: 2, Attrs: 1, NS: 1, Other: true, SymNames: true, TopLevel: true}
 	if nd.Tier() > 0 {
-		o.MaxEvents, o.MaxDepth, o.Attrs = 6, 3, 2
+		o.MaxEvents, o.MaxDepth, o.Attrs = 5, 3, 2
 	}
 	return o
 }
